@@ -551,7 +551,7 @@ def process_keyqueue(codes: Sequence[int], more_available: bool) -> tuple[list[s
     if codes[1:]:
         # Meta keys -- ESC+Key form
         run, remaining_codes = process_keyqueue(codes[1:], more_available)
-        if urwid.util.is_mouse_event(run[0]):
+        if not isinstance(run[0], str):  # mouse event or ("cursor position", x, y) tuple
             return ["esc", *run], remaining_codes
         if run[0] == "esc" or run[0].find("meta ") >= 0:
             return ["esc", *run], remaining_codes
